@@ -28,7 +28,7 @@ def run(ctx):
                 jobs.append((lpc, [fam, alg, lpcmax if main else 12], "%s" % be))
     # the masked (and C++ masked) entry points again under other share configurations: their init/finalize paths convert between share counts
     triples = [t for t in build.ALL_TRIPLES if t != build.DEFAULT_TRIPLE] if ctx.thorough else [(2, 1, 2), (3, 2, 3), (4, 3, 4), (3, 3, 3), (4, 4, 4)]
-    for be in (("asm", "c64", "c32") if ctx.thorough else ("asm",)):
+    for be in ("asm", "c64", "c32"):
         for tr in triples:
             lib = build.build_lib(be, tr)
             ctx.configs.append(lib["desc"])
